@@ -72,7 +72,7 @@ def impl(c):
     if c["op"] in iomodel.MODEL_OPS:
         return iomodel.impl(c)
     g, fmt = c["tg"], c["fmt"]
-    r1 = ioops.save_text(g, fmt, c["blanks"], via_file=True)
+    r1 = ioops.save_text(g, fmt, c["blanks"], via_file=True, through_insert=c.get("ints", False))
     out = {"save": r1}
     if r1[0] == "ok":
         text = r1[1]
@@ -427,8 +427,12 @@ def gen_main(rnd, tier):
             g = narrow_one_tier(g, rnd)         # the tier's own span must survive the round trip (not in the plain json format)
         if rnd.random() < 0.25:
             g = ioops.negate_tg(g, rnd)         # negative times: all below 0, or on both sides of it (A30, fixed)
-        yield {"op": "roundtrip", "tg": g, "fmt": rnd.choice(ioops.FORMATS), "blanks": blanks, "iei": rnd.random() < 0.5,
-               "stream": "keyword" if kw else "plain"}
+        c = {"op": "roundtrip", "tg": g, "fmt": rnd.choice(ioops.FORMATS), "blanks": blanks, "iei": rnd.random() < 0.5,
+             "stream": "keyword" if kw else "plain"}
+        if i % 5 == 0 and any(float(x).is_integer() for t in g["tiers"] for e in t["es"] for x in e[:-1]) \
+                and all(len({e[0] for e in t["es"]}) == len(t["es"]) for t in g["tiers"]):
+            c["ints"] = True      # the same textgrid built entry by entry through insertEntry, whole-number times as ints (A34)
+        yield c
 
 
 def shrink(c):
